@@ -121,7 +121,7 @@ pub fn run_c03(p: &mut Prng, _t: Tier, i: usize, sink: &mut Sink) {
         }
         queues.push(ops);
     }
-    for op in interleave(p, queues) {
+    for op in interleave_par(p, queues) {
         w.exec(op);
     }
     if sink.samples.is_empty() {
@@ -183,7 +183,7 @@ pub fn run_c04(p: &mut Prng, t: Tier, _i: usize, sink: &mut Sink) {
     let signer = if p.chance(1, 3) { "ref" } else { "lib" };
     let (ops_a, a) = session_ops(p, "a", signer, false);
     let (ops_b, b) = session_ops(p, "b", "lib", false);
-    for op in interleave(p, vec![ops_a, ops_b]) {
+    for op in interleave_par(p, vec![ops_a, ops_b]) {
         w.exec(op);
     }
     let has_id = a.id.is_some();
